@@ -707,7 +707,8 @@ func ruleEscaperComplex(r *Run, p *Prog, rule string, g *ssa.Function, textIdx i
 				nothingPending := hasCmp(cmpsOfEdges(inf.pa.edges), func(op token.Token, x, y ssa.Value) bool {
 					return x == ssa.Value(startPhi) && y == ssa.Value(iPhi) && (op == token.GEQ || op == token.EQL)
 				})
-				okS = sv == iv && (flushed || nothingPending)
+				same := sv == iv || iterValueKey(inf.pa, hdr, sv, 0) == iterValueKey(inf.pa, hdr, iv, 0)
+				okS = same && (flushed || nothingPending)
 				d = tern(okS, "after the escape the pending run restarts at the scan index, pending bytes flushed", "after emitting an escape the pending-run start is "+descr(sv)+" while the scan index is "+descr(iv)+" (or the pending run was not flushed): the escaped byte is copied again raw, or bytes are lost")
 			} else {
 				okS = sv == ssa.Value(startPhi)
@@ -1555,6 +1556,46 @@ func resolveOnIter(pa iterPath, hdr *ssa.BasicBlock, phi *ssa.Phi) ssa.Value {
 		}
 	}
 	return v
+}
+
+// iterValueKey renders the value v has at the end of the iteration pa as a structural key: phis of
+// blocks inside the iteration are replaced by the edge the iteration came through, sums and
+// differences are keyed by their operands' keys. Two keys are equal exactly when the two values are
+// the same expression over the same SSA leaves on this iteration (`start = i + size` and the
+// post statement's `i += width` with width = size on this path).
+func iterValueKey(pa iterPath, hdr *ssa.BasicBlock, v ssa.Value, depth int) string {
+	if depth > 8 || v == nil {
+		return "?"
+	}
+	if ph, ok := v.(*ssa.Phi); ok && ph.Block() != hdr {
+		idx := -1
+		for i, b := range pa.blocks {
+			if b == ph.Block() {
+				idx = i
+			}
+		}
+		if idx > 0 {
+			pred := pa.blocks[idx-1]
+			for k, pb := range ph.Block().Preds {
+				if pb == pred {
+					return iterValueKey(pa, hdr, ph.Edges[k], depth+1)
+				}
+			}
+		}
+	}
+	switch x := v.(type) {
+	case *ssa.Const:
+		if n, ok := constInt(x); ok {
+			return itoa(int(n))
+		}
+	case *ssa.BinOp:
+		if x.Op == token.ADD || x.Op == token.SUB {
+			return "(" + iterValueKey(pa, hdr, x.X, depth+1) + x.Op.String() + iterValueKey(pa, hdr, x.Y, depth+1) + ")"
+		}
+	case *ssa.Convert:
+		return iterValueKey(pa, hdr, x.X, depth+1)
+	}
+	return fmt.Sprintf("%s@%p", v.Name(), v)
 }
 
 // ruleFloatGuard: JSON has no NaN/Infinity literals; strconv renders them as NaN, +Inf, -Inf.
